@@ -199,6 +199,7 @@ func pointerDerefs(fn *ssa.Function) []derefSite {
 
 func c02(r *Report, s *Sem) {
 	p := r.P
+	defer r.Import(s, "C01", "R4", "R14", "decoding terminates: every byte-level Receive makes one decode attempt and returns its outcome — the result of the shared conversion or the decoder's error (a loop that retries after a syntax error never ends: encoding/json keeps returning the same error without reading)", 4)
 	defer r.Import(s, "C01", "R12", "R13", "re-encoding yields what was accepted: every wire member an encoder stores has one source among the fields of the accepted value and is emitted on presence tests only (a total replaced by the item count when it is zero decodes to a different collection)", 20)
 	defer r.Import(s, "C01", "R5", "R12", "decoding never writes shared state: the document factory registry is filled only by RegisterDocumentFactory and package initialisation (a lookup that memoises its fallback is a map write on the decode path — two connections decoding unknown media types crash the process with a concurrent map write)", 1, "writes the document factory registry", "registration")
 	defer r.Import(s, "C01", "R3", "R10", "no typed envelope leaves the decoder without the member that identifies its kind: the discriminator answers a kind's tag only when that member is present (request ⇒ uri, response ⇒ status, …), which is what lets dispatch code such as the ping predicates call methods on RequestCommand.URI without a nil test", 7, "tag only with its identifying member")
